@@ -44,7 +44,15 @@ RULE_TABLE = (
     "proxies kept across writes) over 1-3 axis tables mixing DictDimension and ListDimension(1..3), keys "
     "valid, negative, out of range and of the wrong type; bounded-exhaustive over a 12-operation alphabet "
     "per shape (all sequences up to length 3 quick / 4 thorough) then random sequences up to length 14.  "
-    "Non-trivial: two or more cells addressed and some cell written at least twice."
+    "Non-trivial: two or more cells addressed and some cell written at least twice.  Tables with (min, none) "
+    "are built half the time as Table(dims) (default policies).  keys() / iteration of a table are compared "
+    "as SETS (the docstrings promise 'the set of keys').  Under 'any' a tag-dependent output that differs from "
+    "the model's is accepted when it is another legitimate choice (reads: judged by the property; combine "
+    "with sum/untag: model's value and tag count, tags among those under 'all'; combine with a rejecting "
+    "combinator and ==: not compared once they differ).  Standalone-entry stream: Entry(m, r), Entry(value, "
+    "infos, m, r), Entry(value, infos) (default policies), Table.entry() / Table.entry(value, infos); combine "
+    "of such entries, under 'any' also with several constructed tags per operand (result compared by "
+    "membership in the 'all' combination of the implementation's own operands)."
 )
 TRUSTED_TABLE = [
     "model: lean/SRVerif/Model/Table.lean (flat state: instantiated cells by normalised address + the "
@@ -53,6 +61,11 @@ TRUSTED_TABLE = [
 ASSUMPTIONS_TABLE = [
     "keys of type bool/float, slices and unhashable keys are out of scope; `__repr__` is the default one",
     "tags are comparable with one another (Entry.info() takes min)",
+    "the ORDER of keys() / iteration of a table is not compared (creation order in the model, "
+    "C16_table_keys_monotone, is a fact about the model only)",
+    "an ANY entry CONSTRUCTED with several tags is observed and combined but not updated (outside the property)",
+    "Table.entry(value, infos) with exactly one argument None (TypeError) and unknown Dimension subclasses "
+    "(RuntimeError) are not modelled",
 ]
 
 KINDS = ("table", "entry_api", "combine_api")
@@ -98,7 +111,11 @@ def run_impl(case):
     same history with proxies kept in slots expanded to full key chains (what the model is given);
     an operation that uses a slot whose `hold` raised is dropped from both."""
     dims = [DictDimension() if d == "d" else ListDimension(d) for d in case["dims"]]
-    t = RealTable(dims, MERGES[case["merge"]], RETAINS[case["retain"]])
+    if case.get("ctor") == "defaults":  # Table(dimensions): MIN / NONE are the documented defaults
+        assert (case["merge"], case["retain"]) == ("min", "none")
+        t = RealTable(dims)
+    else:
+        t = RealTable(dims, MERGES[case["merge"]], RETAINS[case["retain"]])
     slots = {}
     outs, compiled = [], []
 
@@ -166,9 +183,9 @@ def run_impl(case):
                 if isinstance(obj, EntryProxy):
                     out = {"cands": sorted(([enc(c.value), c.info] for c in items), key=lambda c: c[1])}
                 else:
-                    out = {"keys": items}
+                    out = {"keys": sorted(items, key=repr)}  # "the set of keys": order unspecified
             elif name == "keys":
-                out = {"keys": list(chain(op[1]).keys())}
+                out = {"keys": sorted(chain(op[1]).keys(), key=repr)}
             elif name == "contains":
                 out = {"b": op[2] in chain(op[1])}
             elif name == "eq":
@@ -202,6 +219,8 @@ def canon_model(out):
             return {"cands": sorted(out["cands"], key=lambda c: c[1])}
         if "entry" in out:
             return {"entry": [out["entry"][0], sorted(out["entry"][1])]}
+        if "keys" in out:
+            return {"keys": sorted(out["keys"], key=repr)}
     return out
 
 
@@ -216,7 +235,7 @@ def lean_req(case, compiled, retain=None):
 
 def norm(dims, ks):
     """Normalised address of a full key chain, or None when it is not a valid address."""
-    if len(ks) != len(dims):
+    if len(ks) != len(dims) or not dims:  # a 0-axis table has no cell at all
         return None
     out = []
     for d, k in zip(dims, ks):
@@ -330,22 +349,37 @@ def spec_check(case, compiled, outs):
 TAG_DEPENDENT = ("infos", "info", "len", "iter", "eq", "eqcell", "combine")
 
 
-def compare(case, compiled, outs, mouts):
+def compare(case, compiled, outs, mouts, mouts_all=None):
     """Index of the first operation on which implementation and model differ, or None.  Under 'any'
-    a different but legitimate choice of tag (judged by spec_check) stops the comparison of the
-    tag-dependent outputs of the rest of the sequence."""
-    diverged = False
+    the implementation may keep ANY tag of an optimal candidate, so a tag-dependent output that
+    differs from the model's is never an alarm by itself:
+    * infos / info / iter: spec_check has judged the read against the property; accepted;
+    * == / eqcell: the answer depends on the kept tag; accepted;
+    * combine with a never-rejecting combinator (sum, untag): accepted iff it has the model's value,
+      the model's number of tags and tags among those of the same history replayed under 'all'
+      (`mouts_all`);
+    * combine with a rejecting combinator (rej_none, rej_inf): value and outcome depend on the kept
+      tag; accepted;
+    * len is 0 or 1 whatever the choice and is compared by equality, as is everything that does not
+      depend on tags (values, is_infinite, keys, errors of indexing)."""
     for i, (op, o, mo) in enumerate(zip(compiled, outs, mouts)):
         mo = canon_model(mo)
         if o == mo:
             continue
-        if case["retain"] == "any" and op[0] in ("infos", "info", "iter") and not (
-            isinstance(o, dict) and "err" in o or isinstance(mo, dict) and "err" in mo
-        ):
-            # spec_check has accepted this read: another legitimate choice of the single tag
-            diverged = True
-        if diverged and op[0] in TAG_DEPENDENT:
-            continue
+        if case["retain"] == "any" and op[0] in TAG_DEPENDENT and op[0] != "len":
+            o_err = isinstance(o, dict) and "err" in o
+            mo_err = isinstance(mo, dict) and "err" in mo
+            if op[0] == "combine":
+                if op[3] in ("rej_none", "rej_inf"):
+                    continue
+                moa = canon_model(mouts_all[i]) if mouts_all is not None and i < len(mouts_all) else None
+                if (not o_err and not mo_err and o["entry"][0] == mo["entry"][0]
+                        and len(o["entry"][1]) == len(mo["entry"][1])
+                        and (not isinstance(moa, dict) or "entry" not in moa
+                             or set(o["entry"][1]) <= set(moa["entry"][1]))):
+                    continue
+            elif not (o_err or mo_err):
+                continue
         return i
     if len(outs) != len(mouts):
         return min(len(outs), len(mouts))
@@ -476,7 +510,10 @@ def rand_case(ctx):
             ops.append(["eqcell", path(), path()])
         else:
             ops.append(["combine", path(), path(), rng.choice(["sum", "sum", "rej_none", "rej_inf", "untag"])])
-    return {"kind": "table", "dims": dims, "merge": m, "retain": r, "ops": ops}
+    case = {"kind": "table", "dims": dims, "merge": m, "retain": r, "ops": ops}
+    if (m, r) == ("min", "none") and rng.random() < 0.5:
+        case["ctor"] = "defaults"
+    return case
 
 
 CORPUS_TABLE = [
@@ -525,7 +562,8 @@ def judge(ctx, case):
     if bad:
         return ("violation", bad[0], bad[1])
     mouts = ctx.driver.batch([lean_req(case, compiled)])[0]
-    i = compare(case, compiled, outs, mouts)
+    mall = ctx.driver.batch([lean_req(case, compiled, "all")])[0] if case["retain"] == "any" else None
+    i = compare(case, compiled, outs, mouts, mall)
     if i is not None:
         return ("mismatch", i, (outs[i] if i < len(outs) else None, mouts[i] if i < len(mouts) else None))
     return None
@@ -630,7 +668,10 @@ def render(case):
 def check_cases(ctx, res, cases):
     runs = [run_impl(c) for c in cases]
     mouts = ctx.driver.parallel([lean_req(c, comp) for c, (_, comp) in zip(cases, runs)])
-    for case, (outs, compiled), mo in zip(cases, runs, mouts):
+    # 'any': the same history under 'all' gives the tags among which the implementation may choose
+    anyi = [k for k, c in enumerate(cases) if c["retain"] == "any"]
+    malls = dict(zip(anyi, ctx.driver.parallel([lean_req(cases[k], runs[k][1], "all") for k in anyi])))
+    for k, (case, (outs, compiled), mo) in enumerate(zip(cases, runs, mouts)):
         res.case(case, nontrivial(case, compiled))
         res.dist[f"table/{len(case['dims'])}d/{case['merge']}/{case['retain']}"] += 1
         bad = spec_check(case, compiled, outs)
@@ -644,7 +685,7 @@ def check_cases(ctx, res, cases):
             else:
                 res.violation("table: " + bad[1], case, observed={"outputs": outs, "program": render(case)})
             continue
-        i = compare(case, compiled, outs, mo)
+        i = compare(case, compiled, outs, mo, malls.get(k))
         if i is not None:
             if len(res.mismatch) < 3:
                 small = minimise(ctx, case, "mismatch")
@@ -663,7 +704,15 @@ def check_cases(ctx, res, cases):
 
 def build_entry(spec):
     m, r = MERGES[spec["merge"]], RETAINS[spec["retain"]]
-    e = Entry(dec(spec["value"]), list(spec["infos"]), m, r) if "value" in spec else Entry(m, r)
+    ctor = spec.get("ctor")
+    if ctor == "table":       # Table.entry() / Table.entry(value, infos): the table's policies
+        t = RealTable([ListDimension(1)], m, r)
+        e = t.entry(dec(spec["value"]), list(spec["infos"])) if "value" in spec else t.entry()
+    elif ctor == "defaults":  # Entry(value, infos): MIN / NONE
+        assert (spec["merge"], spec["retain"]) == ("min", "none") and "value" in spec
+        e = Entry(dec(spec["value"]), list(spec["infos"]))
+    else:
+        e = Entry(dec(spec["value"]), list(spec["infos"]), m, r) if "value" in spec else Entry(m, r)
     for b in spec["batches"]:
         e.update(*[cand(c) for c in b])
     return e
@@ -703,8 +752,16 @@ def rand_entry_spec(rng, m, r, finite_only=False):
         for _ in range(rng.randint(0, 2))]}
     if rng.random() < 0.5:
         spec["value"] = rng.choice(vals)
-        # under 'any' the iteration order of a multi-tag set would matter to combine: at most one tag
-        spec["infos"] = rng.sample([1, 2, 3, 1], rng.randint(0, 1 if r == "any" else 4))
+        # (under 'any' the iteration order of a multi-tag set matters to combine: compared by membership)
+        spec["infos"] = rng.sample([1, 2, 3, 1], rng.randint(0, 4))
+        if r == "any" and len(set(spec["infos"])) > 1:
+            # what `update` does to an ANY entry CONSTRUCTED with several tags is outside the property
+            # (a conforming variant may shrink the set): such an entry is only observed / combined
+            spec["batches"] = []
+        if (m, r) == ("min", "none") and rng.random() < 0.4:
+            spec["ctor"] = "defaults"
+    if "ctor" not in spec and rng.random() < 0.3:
+        spec["ctor"] = "table"
     return spec
 
 
@@ -720,9 +777,24 @@ def check_entry_api(ctx, res, n):
             c = {"kind": "combine_api", "a": rand_entry_spec(rng, m, r, True), "b": rand_entry_spec(rng, m, r, True),
                  "comb": rng.choice(["sum", "rej_none", "rej_inf", "untag"])}
         cases.append(c)
-    reqs = [dict(c, op="c16t_entry") if c["kind"] == "entry_api" else dict(c, op="c16t_combine") for c in cases]
+    def is_any(c):
+        return (c.get("a") or c)["retain"] == "any"
+
+    def any_operands(c):
+        # under 'any' the result may carry the tag of ANY optimal pair (set iteration order): the model
+        # is given the implementation's own operands, under 'all', and the result compared by membership
+        def spec(s):
+            e = build_entry(s)
+            return {"merge": s["merge"], "retain": "all", "value": enc(e.value()),
+                    "infos": sorted(e.infos()), "batches": []}
+        return dict(c, a=spec(c["a"]), b=spec(c["b"]))
+
+    reqs = [dict(c, op="c16t_entry") if c["kind"] == "entry_api"
+            else dict(any_operands(c) if is_any(c) else c, op="c16t_combine") for c in cases]
     mouts = ctx.driver.parallel(reqs)
-    for c, mo in zip(cases, mouts):
+    anyi = [k for k, c in enumerate(cases) if c["kind"] == "entry_api" and is_any(c)]
+    malls = dict(zip(anyi, ctx.driver.parallel([dict(cases[k], op="c16t_entry", retain="all") for k in anyi])))
+    for k, (c, mo) in enumerate(zip(cases, mouts)):
         io = run_entry_api(c)
         res.case(c, nontrivial=bool(c.get("infos") or c.get("a", {}).get("batches")))
         res.dist[f"{c['kind']}/{(c.get('a') or c)['retain']}"] += 1
@@ -733,7 +805,18 @@ def check_entry_api(ctx, res, n):
         if entry_api_bad(c, io):
             res.violation("entry observers disagree with value()/infos()", c, observed=io)
             continue
-        if io != mo:
+        if c["kind"] == "combine_api" and is_any(c) and "err" not in io and "err" not in mo:
+            # `mo` is the combination under 'all' of the implementation's own operands
+            same = (io["value"] == mo["value"] and len(io["infos"]) == min(1, len(mo["infos"]))
+                    and set(io["infos"]) <= set(mo["infos"]))
+        elif k in malls and "err" not in io and "err" not in mo and "err" not in malls[k]:
+            # 'any': same value / number of tags, the kept tag among the tags kept under 'all'
+            # (info / iter / == are tied to infos() by entry_api_bad)
+            same = (io["value"] == mo["value"] and io["len"] == mo["len"] and io["inf"] == mo["inf"]
+                    and set(io["infos"]) <= set(malls[k]["infos"]))
+        else:
+            same = io == mo
+        if not same:
             res.tie_broken("Entry API model vs implementation", c, mo, io)
 
 
